@@ -24,7 +24,7 @@ run() { # name prop patchfile expect(violation|clean)
 }
 for w in $what; do case $w in
 seeds)
-  for d in seeded/*/; do s=$(basename $d); p=$(python3 -c "import json;print(json.load(open('$d/meta.json'))['property'])"); run $s $p $V/$d/patch.diff violation; done;;
+  for d in seeded/[A-Z]*/; do s=$(basename $d); p=$(python3 -c "import json;print(json.load(open('$d/meta.json'))['property'])"); run $s $p $V/$d/patch.diff violation; done;;
 reverts)
   while read -r _ prop hash rest; do
     p=${prop#property=}; tmp=$V/out/revert-$hash.diff
